@@ -9,7 +9,7 @@ def hook_commits():
 
 CHECKS = {
  "C01": dict(
-   technique="runtime monitoring: metamorphic oracle (blank-stripped character sequence; case changes located with an independent reference scanner) over generated, mutated and hostile inputs x sampled configurations",
+   technique="runtime monitoring: metamorphic oracle (blank-stripped character sequence; case changes located with an independent reference scanner) over generated, mutated and hostile inputs x sampled configurations; one case in twenty through the real binary (stdin->stdout, files mode, byte order marks)",
    text="Exploration. Every format call of the real library on inputs from all generators is checked by an oracle that does not use pasfmt's lexer; held on K executions, never 'verified'.",
    note="Trusted: the harness' reference scanner for locating keyword-capable words and directive names on the input; generators' reach (listed in evidence)."),
  "C02": dict(
@@ -25,7 +25,7 @@ CHECKS = {
    text="Exploration with exhaustive sub-spaces (all sequences up to length 2 quick / 3 thorough over the listed alphabet, length 4 over the opener sub-alphabet). Panic, process death, > 2000*(n+16)^2 logical steps or a confirmed 240 s timeout is a violation.",
    note="Trusted: step hooks cover the loops listed in DESIGN.md; loops without a hook are covered only by the CPU-time watchdog. Release profile decides."),
  "C05": dict(
-   technique="runtime monitoring: structure oracle over generator-known statement/member/opener/closer tokens located in the output by non-blank ordinal; relative indentation rule checked per block; hook events and generator context give known-finding signatures",
+   technique="runtime monitoring: structure oracle over generator-known statement/member/opener/closer tokens located in the output by non-blank ordinal; relative indentation rule checked per block, and column 0 for what the generator starts at the file's outermost level; hook events and generator context give known-finding signatures",
    text="Exploration over grammar programs x layouts x widths x begin_style.",
    note="Trusted: the generator's role annotations (what is a statement of which block); C01 (ordinals) is checked separately."),
  "C06": dict(
@@ -41,7 +41,7 @@ CHECKS = {
    text="Exploration; universal clauses on all inputs, end-of-file clause on well-formed inputs.",
    note="Trusted: reference scanner delimits tokens, verbatim regions and asm bodies in the output."),
  "C09": dict(
-   technique="runtime monitoring: terminator oracle on output gaps and re-indented literals, plus two metamorphic relations (lf vs crlf configuration; LF vs CRLF input)",
+   technique="runtime monitoring: terminator oracle on output gaps and re-indented literals, plus two metamorphic relations (crlf result == lf result with every terminator substituted, exactly, when nothing is kept verbatim across lines; LF vs CRLF input under either configured ending)",
    text="Exploration over all generators x input endings x configurations.",
    note="Trusted: reference scanner; verbatim line-spanning tokens are exempt as the property says."),
  "C10": dict(
@@ -53,7 +53,7 @@ CHECKS = {
    text="Exploration over well-formed inputs x width pairs x other settings.",
    note="Width is measured as the wrapper measures it (UTF-8 bytes, a tab counts one)."),
  "C12": dict(
-   technique="runtime monitoring: value oracle on literals whose text and value are known by construction (literal product x carrier programs x configurations), located in the output by non-blank ordinal",
+   technique="runtime monitoring: value oracle on literals whose text and value are known by construction (literal product x carrier programs x configurations), located in the output by non-blank ordinal (by value when ordinals cannot be aligned)",
    text="Exploration over the literal product x 19 carriers x configurations.",
    note="Trusted: generator-computed values; whitespace-only lines that are not a prefix of the closing indentation are not generated (the property text is ambiguous about them)."),
  "C13": dict(
@@ -65,7 +65,7 @@ CHECKS = {
    text="Exploration.",
    note="Trusted: nothing beyond the public parse result; 'well-formed' as in C02."),
  "C15": dict(
-   technique="runtime monitoring: differential execution with/without cursors and a token-relative position oracle using pasfmt's own tokenisation of the input and non-blank ordinals; the binary's CURSOR= line compared with the library, cursors dropped for multi-file runs",
+   technique="runtime monitoring: differential execution with/without cursors and a token-relative position oracle using pasfmt's own tokenisation of the input and non-blank ordinals; verbatim material (asm, off regions) in LF/CRLF/CR form as cursor inputs; the binary's CURSOR= line compared with the library, cursors dropped for multi-file runs",
    text="Exploration over all generators x cursor lists x configurations.",
    note="The unchanged-token clause is checked only when the output has the same non-blank characters as the input."),
  "C16": dict(
